@@ -29,10 +29,11 @@ def cube(shape, seed, kind=None):
 
 
 def write_segy(path, data, ilines, xlines, samples, fmt=5, headers=None, ext_text=0, bin_fields=None,
-               text=None, delay=None):
-    """Regular 3-D SEG-Y, inline sorted.  headers: {TraceField: 2-D int array} extra per-trace values."""
+               text=None, delay=None, sorting='il'):
+    """Regular 3-D SEG-Y, inline sorted (sorting='xl': crossline sorted - file order is every inline of the first crossline,
+    then of the second, ...).  headers: {TraceField: 2-D int array} extra per-trace values."""
     spec = segyio.spec()
-    spec.sorting = 2
+    spec.sorting = 1 if sorting == 'xl' else 2
     spec.format = fmt
     spec.samples = np.asarray(samples, dtype=np.float64)
     spec.ilines = np.asarray(ilines, dtype=np.intc)
@@ -46,8 +47,10 @@ def write_segy(path, data, ilines, xlines, samples, fmt=5, headers=None, ext_tex
         for k in range(ext_text):
             f.text[1 + k] = ('EXT %d ' % k).ljust(3200).encode()
         t = 0
-        for i, il in enumerate(ilines):
-            for x, xl in enumerate(xlines):
+        order = [(i, x) for x in range(n_xl) for i in range(n_il)] if sorting == 'xl' else [(i, x) for i in range(n_il) for x in range(n_xl)]
+        for i, x in order:
+            if True:
+                il, xl = ilines[i], xlines[x]
                 h = {segyio.TraceField.INLINE_3D: int(il), segyio.TraceField.CROSSLINE_3D: int(xl),
                      segyio.TraceField.TRACE_SAMPLE_COUNT: len(samples),
                      segyio.TraceField.TRACE_SAMPLE_INTERVAL: dt_us & 0x7fff if dt_us > 32767 else dt_us,
